@@ -14,7 +14,7 @@ def main():
         def emit(ab, cname):
             nonlocal cid
             cm = carriers[cname]
-            case = fit(ab, cm, rng)
+            case = fit(ab, cm, random.Random(int(__import__('hashlib').sha256(repr((ab.name, ab.rules, seed)).encode()).hexdigest()[:8], 16)))
             if case is None: return False
             lex = default_lex(cm["terms"])
             ins = make_inputs(case, rng, cm["lexer"] == "generated", nin, exl)
